@@ -235,10 +235,10 @@ impl<T: Elem + Clone + Ord + Default> Hist<T> {
                             let b = (*back).min(line.len() - f);
                             res = catches(|| {
                                 let ok = match (axis, pop) {
-                                    (Axis::Row, false) => drive_drain(ctx, opn, &mut a.remove_row(*idx), &line, f, b, *inter, h),
-                                    (Axis::Row, true) => drive_drain(ctx, opn, &mut a.pop_row().expect("harness: pop_row None on non-empty"), &line, f, b, *inter, h),
-                                    (Axis::Col, false) => drive_drain(ctx, opn, &mut a.remove_col(*idx), &line, f, b, *inter, h),
-                                    (Axis::Col, true) => drive_drain(ctx, opn, &mut a.pop_col().expect("harness: pop_col None on non-empty"), &line, f, b, *inter, h),
+                                    (Axis::Row, false) => drive_drain(ctx, opn, a.remove_row(*idx), &line, f, b, *inter, h),
+                                    (Axis::Row, true) => drive_drain(ctx, opn, a.pop_row().expect("harness: pop_row None on non-empty"), &line, f, b, *inter, h),
+                                    (Axis::Col, false) => drive_drain(ctx, opn, a.remove_col(*idx), &line, f, b, *inter, h),
+                                    (Axis::Col, true) => drive_drain(ctx, opn, a.pop_col().expect("harness: pop_col None on non-empty"), &line, f, b, *inter, h),
                                 };
                                 let _ = ok;
                             });
@@ -368,11 +368,11 @@ impl<T: Elem + Clone + Ord + Default> Hist<T> {
                 let a = std::mem::take(&mut self.a);
                 let h = &mut held;
                 res = catches(|| {
-                    let mut it = a.into_iter();
+                    let it = a.into_iter();
                     let line = flat;
                     let ff = (*f).min(line.len());
                     let bb = (*b).min(line.len() - ff);
-                    drive_drain(ctx, "into_iter", &mut it, &line, ff, bb, 0, h);
+                    drive_drain(ctx, "into_iter", it, &line, ff, bb, (ff * 7 + bb * 3) % 24, h);
                 });
             }
         }
@@ -521,7 +521,7 @@ pub fn rand_step(rng: &mut Rng, g: &Grid, invalid: bool, copy_ok: bool, conversi
         let idx = if pop { dim.saturating_sub(1) } else if bad || dim == 0 { dim + rng.below(2) } else { rng.below(dim) };
         let front = rng.below(line + 1);
         let back = rng.below(line - front + 1);
-        return Step::Rem { axis, idx, pop, front, back, inter: rng.below(3) };
+        return Step::Rem { axis, idx, pop, front, back, inter: rng.below(24) };
     }
     match roll {
         44..=46 => Step::Clear,
@@ -570,7 +570,7 @@ pub fn rand_step(rng: &mut Rng, g: &Grid, invalid: bool, copy_ok: bool, conversi
     }
 }
 
-fn random_history<T: Elem + Clone + Ord + Default>(ctx: &mut Ctx, prop: &'static str, seed_mix: u64, nsteps: usize, invalid: bool, conversions: bool, maxdim: usize) {
+fn random_history<T: Elem + Clone + Ord + Default>(ctx: &mut Ctx, prop: &'static str, seed_mix: u64, nsteps: usize, invalid: bool, conversions: bool, maxdim: usize, start: Option<(usize, usize)>) {
     ledger_reset();
     kv_reset();
     fault_reset();
@@ -580,7 +580,14 @@ fn random_history<T: Elem + Clone + Ord + Default>(ctx: &mut Ctx, prop: &'static
     let copy_ok = T::CLONE_KEEPS_UID && !T::IS_ZST;
     let mut all_ok = true;
     let mut moved = false;
+    if let Some((c, r)) = start {
+        // exact-capacity start from a given (large) shape
+        all_ok &= h.step(ctx, &Step::FromBox(c, r, c * r)) != StepOut::Failed;
+    }
     for _ in 0..nsteps {
+        if !all_ok {
+            break;
+        }
         let st = rand_step(&mut rng, &h.g, invalid, copy_ok, conversions, maxdim);
         let out = h.step(ctx, &st);
         if out == StepOut::Skipped {
@@ -630,8 +637,8 @@ fn reduced_alphabet(d: usize) -> Vec<Step> {
             }
         }
         for idx in 0..=d {
-            for (front, back) in [(0, 0), (1, 0), (0, 1), (9, 0)] {
-                v.push(Step::Rem { axis, idx, pop: false, front, back, inter: 0 });
+            for (front, back, inter) in [(0, 0, 0), (1, 0, 0), (0, 1, 0), (9, 0, 0), (2, 0, 3), (0, 0, 20), (1, 0, 12)] {
+                v.push(Step::Rem { axis, idx, pop: false, front, back, inter });
             }
         }
         v.push(Step::Rem { axis, idx: 0, pop: true, front: 0, back: 1, inter: 0 });
@@ -726,13 +733,28 @@ pub fn run_c01(ctx: &mut Ctx) {
     for i in 0..nrand {
         if ctx.case(|| format!("C01 random history #{} ({} steps)", i, nsteps)) {
             match i % 4 {
-                0 | 1 => random_history::<Tok>(ctx, "C01", ctx.cur_idx, nsteps, true, false, maxdim),
-                2 => random_history::<Kv>(ctx, "C01", ctx.cur_idx, nsteps, true, false, maxdim),
-                _ => random_history::<Zst>(ctx, "C01", ctx.cur_idx, nsteps, true, false, maxdim),
+                0 | 1 => random_history::<Tok>(ctx, "C01", ctx.cur_idx, nsteps, true, false, maxdim, None),
+                2 => random_history::<Kv>(ctx, "C01", ctx.cur_idx, nsteps, true, false, maxdim, None),
+                _ => random_history::<Zst>(ctx, "C01", ctx.cur_idx, nsteps, true, false, maxdim, None),
             }
         }
         if ctx.done() {
             return;
+        }
+    }
+    // histories that start from larger, exact-capacity arrays (size-threshold dependent paths)
+    for (bi, shape) in crate::wl_insrem::big_shapes(ctx, 1).into_iter().enumerate() {
+        for rep in 0..2 {
+            if ctx.case(|| format!("C01 big-start history shape={}x{} #{}", shape.0, shape.1, rep)) {
+                let md = shape.0.max(shape.1) + 3;
+                match (bi + rep) % 3 {
+                    0 | 1 => random_history::<Tok>(ctx, "C01", ctx.cur_idx, 14, true, false, md, Some(shape)),
+                    _ => random_history::<Zst>(ctx, "C01", ctx.cur_idx, 14, true, false, md, Some(shape)),
+                }
+            }
+            if ctx.done() {
+                return;
+            }
         }
     }
 }
@@ -760,13 +782,28 @@ pub fn run_c05(ctx: &mut Ctx) {
     for i in 0..nrand {
         if ctx.case(|| format!("C05 random valid history #{} ({} steps)", i, nsteps)) {
             if i % 3 == 2 {
-                random_history::<Zst>(ctx, "C05", ctx.cur_idx, nsteps, false, true, maxdim)
+                random_history::<Zst>(ctx, "C05", ctx.cur_idx, nsteps, false, true, maxdim, None)
             } else {
-                random_history::<Tok>(ctx, "C05", ctx.cur_idx, nsteps, false, true, maxdim)
+                random_history::<Tok>(ctx, "C05", ctx.cur_idx, nsteps, false, true, maxdim, None)
             }
         }
         if ctx.done() {
             return;
+        }
+    }
+    // histories that start from larger, exact-capacity arrays (size-threshold dependent paths)
+    for (bi, shape) in crate::wl_insrem::big_shapes(ctx, 1).into_iter().enumerate() {
+        for rep in 0..2 {
+            if ctx.case(|| format!("C05 big-start history shape={}x{} #{}", shape.0, shape.1, rep)) {
+                let md = shape.0.max(shape.1) + 3;
+                match (bi + rep) % 3 {
+                    0 | 1 => random_history::<Tok>(ctx, "C05", ctx.cur_idx, 14, false, true, md, Some(shape)),
+                    _ => random_history::<Zst>(ctx, "C05", ctx.cur_idx, 14, false, true, md, Some(shape)),
+                }
+            }
+            if ctx.done() {
+                return;
+            }
         }
     }
 }
